@@ -198,12 +198,15 @@ def rectangularise(rng, t, vals, p=0.22):
 
 
 # ------------------------------------------------------------------ encodings
+DEFAULT_ND = 0.2      # see Enc.nd; the Python halves generate with 0 (pyhalves._with_corpus)
+
+
 class Enc:
     """encoding options; canonical=True gives the compact canonical encoding"""
 
     def __init__(self, rng, canonical=False, junk=True, indexed=True, list_kinds=('lo', 'la', 'reg'),
                  opt_kinds=('ixo', 'bym', 'bim', 'unm'), widths=WIDTHS, weird_empty=0.0, special=True, strided=0.0, ix_prob=0.12,
-                 nd=0.2):
+                 nd=None):
         self.rng = rng
         self.ix_prob = ix_prob      # probability of an IndexedArray indirection at a node (0.3 over record nodes)
         self.canonical = canonical
@@ -215,7 +218,7 @@ class Enc:
         self.weird_empty = weird_empty
         self.special = special
         self.strided = strided
-        self.nd = nd              # probability that a regular level over a plain leaf array becomes an n-d NumpyArray dimension
+        self.nd = DEFAULT_ND if nd is None else nd              # probability that a regular level over a plain leaf array becomes an n-d NumpyArray dimension
         self.decisions = []      # (is_regular, size) per list level, in encoding order
         self.replay = None       # when set: list of decisions to follow (canonical re-encoding keeps the type)
         self.stats = {}
